@@ -592,6 +592,10 @@ def _decorate_fn_or_cls(decorator,
       method_overrides = {
           name: decorator(method) for name, method in method_overrides.items()
       }
+    for name, method in method_overrides.items():
+      # Keep a registered static method static on the configurable class.
+      if isinstance(inspect.getattr_static(cls, name, None), staticmethod):
+        method_overrides[name] = staticmethod(method)
     cls_meta = type(cls)  # The metaclass of the given class.
     if method_overrides:
       # If we have methods to override, we just use cls_meta.__call__ directly.
